@@ -2,6 +2,7 @@ package main
 
 import (
 	"bytes"
+	"crypto/tls"
 	"encoding/json"
 	"fmt"
 	"net"
@@ -14,6 +15,7 @@ import (
 	"syscall"
 	"time"
 
+	"github.com/hashicorp/go-hclog"
 	"github.com/jimlambrt/gldap"
 
 	"verif/internal/sber"
@@ -24,21 +26,24 @@ func init() {
 		ID: "C07", Level: "fault_enumeration", Primary: "fault_placements", EvalCount: "faults_injected",
 		Rule: "faults = handler panic (the panic value cycles through string, error, int, struct, pointer, byte slice and two runtime errors) in every operation kind (concurrently dispatched bind/search/modify/add/delete/extended; inline StartTLS; inline unbind; default route), each alone, after earlier requests, and " +
 			"while sibling handlers of the same connection are still running; connection reset mid-frame; truncated frame + FIN; malformed / undecodable frames (incl. inputs that used to panic the decoder); a client that stops " +
-			"reading a large response and resets (failed write) or is held; storms of hundreds of recovered panics; the structural mutations (children dropped/doubled/swapped/truncated, tag/class/length corruptions) of the canonical requests; established ldaps sessions that vanish (reset, mid-frame reset, bare FIN, reset with a request unanswered); TLS handshakes stalled and held on a TLS listener; descriptor exhaustion at accept (RLIMIT_NOFILE lowered until accept4 returns EMFILE); 300 (thorough 3000) abruptly ended connections in a row under a descriptor limit with room for 40. Each fault is placed within continuous verified traffic on bystander " +
+			"reading a large response and resets (failed write) or is held; storms of hundreds of recovered panics; a StartTLS upgrade while an earlier request of the connection is still in its handler; the structural mutations (children dropped/doubled/swapped/truncated, tag/class/length corruptions) of the canonical requests; established ldaps sessions that vanish (reset, mid-frame reset, bare FIN, reset with a request unanswered); TLS handshakes stalled and held on a TLS listener; the panic faults again on a server whose logger is switched off; descriptor exhaustion at accept (RLIMIT_NOFILE lowered until accept4 returns EMFILE); 300 (thorough 3000) abruptly ended connections in a row under a descriptor limit with room for 40. Each fault is placed within continuous verified traffic on bystander " +
 			"connections and followed by a fresh-connection probe. distinct_nontrivial = distinct (fault kind, placement) pairs injected while at least one bystander operation overlapped or followed",
 		Assume: []string{"the server runs in a child process; its death, or Run returning while not stopped, is observed by the supervisor / the harness",
 			"the faulted connection itself may die; only bystanders, new connections and the process are asserted"},
 		Phases: func(tier string, seed int64) []Phase {
-			return []Phase{{Name: "faults", Run: c07Faults, Crash: c07Crash}, {Name: "emfile", Run: c07Emfile}, {Name: "tls-stalled-handshakes", Run: c07TLSStalled}}
+			return []Phase{{Name: "faults", Run: c07Faults, Crash: c07Crash}, {Name: "emfile", Run: c07Emfile}, {Name: "tls-stalled-handshakes", Run: c07TLSStalled},
+				// the panic faults once more on a server whose logger is switched off (what gldap does about a panic must
+				// not depend on whether anybody listens to its log)
+				{Name: "faults-silent-logger", Run: func(c *Ctx) { c07Silent = true; c07Faults(c) }, Crash: c07Crash}}
 		},
-		MinObserved: []string{"faults_injected", "bystander_ops_verified", "bystander_ops_overlapping_or_after_a_fault", "new_connection_probes", "emfile_accept_failures_provoked", "probes_served_while_a_handshake_is_stalled", "mutated_frames_fed", "handler_panics_with_a_value_that_is_neither_string_nor_error", "abruptly_ended_connections_under_a_tight_descriptor_limit"},
+		MinObserved: []string{"faults_injected", "bystander_ops_verified", "bystander_ops_overlapping_or_after_a_fault", "new_connection_probes", "emfile_accept_failures_provoked", "probes_served_while_a_handshake_is_stalled", "mutated_frames_fed", "handler_panics_with_a_value_that_is_neither_string_nor_error", "abruptly_ended_connections_under_a_tight_descriptor_limit", "connections_upgraded_while_a_request_was_in_flight", "panic_faults_injected_on_a_server_whose_logger_is_off"},
 	})
 }
 
 var c07Kinds = []string{
 	"panic-bind", "panic-search", "panic-modify", "panic-add", "panic-delete", "panic-extended",
 	"panic-starttls", "panic-unbind", "panic-default",
-	"reset-midframe", "truncated-fin", "malformed", "former-decode-panic", "stop-reading-then-reset", "stalled-reader-held", "storm-of-panics", "mutated-frames", "abandon-flood",
+	"reset-midframe", "truncated-fin", "malformed", "former-decode-panic", "stop-reading-then-reset", "stalled-reader-held", "storm-of-panics", "mutated-frames", "abandon-flood", "inflight-across-starttls",
 }
 
 var (
@@ -53,11 +58,19 @@ type c07Case struct {
 	Kind, Place string
 }
 
+var c07Silent bool
+
 func c07Cases(c *Ctx) []c07Case {
 	var out []c07Case
 	reps := c.N(3, 40)
+	if c07Silent {
+		reps = c.N(1, 4)
+	}
 	for rep := 0; rep < reps; rep++ {
 		for _, k := range c07Kinds {
+			if c07Silent && !strings.HasPrefix(k, "panic-") && k != "storm-of-panics" {
+				continue
+			}
 			for _, p := range c07Placements {
 				out = append(out, c07Case{k, p})
 			}
@@ -77,7 +90,11 @@ func c07Server() (*Srv, *sync.WaitGroup, error) {
 	release := make(chan struct{})
 	_ = release
 	mark := func(s string) bool { return strings.Contains(s, "PANIC-NOW") }
-	srv, err := startSrv(SrvCfg{}, func(m *gldap.Mux) {
+	scfg := SrvCfg{}
+	if c07Silent {
+		scfg.LogLevel = hclog.Off
+	}
+	srv, err := startSrv(scfg, func(m *gldap.Mux) {
 		m.Bind(func(w *gldap.ResponseWriter, r *gldap.Request) {
 			b, _ := r.GetSimpleBindMessage()
 			if mark(b.UserName) {
@@ -138,6 +155,13 @@ func c07Server() (*Srv, *sync.WaitGroup, error) {
 			w.Write(r.NewExtendedResponse(gldap.WithResponseCode(0)))
 		}, "1.9.9.2")
 		m.ExtendedOperation(func(w *gldap.ResponseWriter, r *gldap.Request) {
+			if c07RealUpgrade.CompareAndSwap(true, false) {
+				// this once the route does what it is there for
+				c07PKIOnce.Do(func() { c07PKI = newPKI() })
+				w.Write(r.NewExtendedResponse(gldap.WithResponseCode(0)))
+				r.StartTLS(c07PKI.ServerOnly)
+				return
+			}
 			c07Throw("StartTLS")
 		}, gldap.ExtendedOperationStartTLS)
 		m.Unbind(func(w *gldap.ResponseWriter, r *gldap.Request) {
@@ -152,7 +176,12 @@ func c07Server() (*Srv, *sync.WaitGroup, error) {
 	return srv, &park, err
 }
 
-var c07PanicUnbind atomic.Bool
+var c07PanicUnbind, c07RealUpgrade atomic.Bool
+
+var (
+	c07PKIOnce sync.Once
+	c07PKI     *PKI
+)
 
 // c07Throw panics with a value whose kind changes from call to call: what a handler panics WITH is the application's
 // business - a string, an error, a number, a struct, a runtime error.
@@ -275,6 +304,35 @@ func c07Inject(c *Ctx, srv *Srv, cs c07Case, r *Rand) {
 			}
 		}
 		c07PanicUnbind.Store(false)
+	case cs.Kind == "inflight-across-starttls":
+		// an ordinary request is still in its handler while a StartTLS request pipelined behind it upgrades the
+		// connection; the handler finishes (and answers) afterwards. Odd for a client to do, fatal for nobody.
+		c07PKIOnce.Do(func() { c07PKI = newPKI() })
+		c07RealUpgrade.Store(true)
+		cl.Send(append(c07Search(id, "slow=250"), sber.Message(id+1, sber.ExtendedRequest([]byte(sber.OIDStartTLS), nil, false), nil).Encode()...))
+		upgraded := false
+		for k := 0; k < 8; k++ {
+			m, err := cl.ReadMsg(3 * time.Second)
+			if err != nil {
+				break
+			}
+			if m.ID == id+1 {
+				tc := tls.Client(cl.C, c07PKI.ClientPlain)
+				cl.C.SetDeadline(time.Now().Add(5 * time.Second))
+				if tc.Handshake() == nil {
+					upgraded = true
+					tcl := wrapClient(tc)
+					tcl.ReadMsg(2 * time.Second) // the slow handler's answer, written after the upgrade
+					tcl.Send(c07Search(id+2, "tag=9"))
+					tcl.ReadMsg(2 * time.Second)
+				}
+				break
+			}
+		}
+		c07RealUpgrade.Store(false)
+		if upgraded {
+			c.Count("connections_upgraded_while_a_request_was_in_flight", 1)
+		}
 	case cs.Kind == "reset-midframe":
 		f := c07Search(id, "tag=5")
 		cl.Send(f[:len(f)/2])
@@ -516,6 +574,9 @@ func c07Faults(c *Ctx) {
 		fe.End = nextSeq()
 		faults = append(faults, fe)
 		c.Count("faults_injected", 1)
+		if c07Silent {
+			c.Count("panic_faults_injected_on_a_server_whose_logger_is_off", 1)
+		}
 		c.Count("faults/"+cs.Kind, 1)
 		c.Distinct("fault_placements", cs.Kind+"/"+cs.Place)
 		// the process must still be serving: Run not returned, a fresh connection is served
@@ -614,7 +675,7 @@ func c07Crash(s *Super, ph Phase, stderr string, partial *PhaseResult) []Phase {
 		return nil
 	}
 	np := ph
-	np.Name = fmt.Sprintf("faults@%d", pr.Index+1)
+	np.Name = fmt.Sprintf("%s@%d", strings.SplitN(ph.Name, "@", 2)[0], pr.Index+1)
 	np.Arg = strconv.Itoa(pr.Index + 1)
 	return []Phase{np}
 }
